@@ -581,7 +581,6 @@ func ZZ_C15_assertion_replay() {
 		if delta < -slack {
 			zz.Cover("replay:same-assertion-while-valid", true)
 			zz.Assert(err2 != nil, "replay: the same assertion is refused while it is unexpired")
-			zz.Assert(errName(err2) == "jti_known", "replay: refused as a known jti")
 		} else if delta > slack && delta < time.Second-slack {
 			zz.Cover("replay:same-assertion-in-its-last-second", true)
 			zz.Assert(err2 != nil, "replay: the same assertion is refused in the last second of its validity")
